@@ -55,6 +55,7 @@ func checkC14(c *Ctx) {
 	c.Rule("C14.2", "the filter is a pure projection: drops exactly its class, forwards once with unchanged message and time stamp, writes nothing", 2)
 	c.Rule("C14.3", "the sysex option does not steer the decoder: with the option off as with it on, every (receiver state, input class) transition of the live decoder equals the receiver model — only sysex deliveries differ", 20)
 	c.Rule("C14.4", "siblings agree: every driver's filter closure has the same decision table", 1)
+	c.Rule("C14.5", "the conversion stage of ListenTo is option independent: whatever the captured options hold, every decoder output shape is handed to the listener exactly once with the wire bytes (filtering happens only in the driver's filter, per class)", 17)
 
 	mp := p.Pkg("")
 	listenTo := mp.Func("ListenTo")
@@ -196,6 +197,7 @@ func checkC14(c *Ctx) {
 		c.Check(ok, "C14.1", "decoder constructor copies the config", p.Pos(nr.Pos()), "sysex handling, buffer size, callbacks copied from the config", why)
 	}
 	liveSimulation(c, "C14.3", "", "", true)
+	retypingRule(c, "C14.5", "")
 	// ---- filter closures
 	fcs := filterClosures(p)
 	if len(fcs) < 2 {
